@@ -16,6 +16,8 @@ TABLE = {
     'C09': ('harness.c01', lambda m, tier, only: m.main('C09', tier, only)),
     'C11': ('harness.c01', lambda m, tier, only: m.main('C11', tier, only)),
     'C20': ('harness.c01', lambda m, tier, only: m.main('C20', tier, only)),
+    'C10': ('harness.c10', lambda m, tier, only: m.main('C10', tier, only)),
+    'C12': ('harness.c10', lambda m, tier, only: m.main('C12', tier, only)),
     'C07': ('harness.c07', lambda m, tier, only: m.main('C07', tier, only)),
 }
 
